@@ -15,6 +15,7 @@
 package originium
 
 import (
+	"bytes"
 	"errors"
 
 	"github.com/B1NARY-GR0UP/originium/pkg/verifhook"
@@ -161,6 +162,9 @@ func (t *Txn) modify(e types.Entry) error {
 
 	// record key fingerprint
 	t.writesFp[utils.Hash(e.Key)] = struct{}{}
+	// the value slice belongs to the caller, who may reuse it once Set or Commit has returned,
+	// while the memtable keeps the entry until it is flushed: keep a copy
+	e.Value = bytes.Clone(e.Value)
 	// memory storage writer buffer
 	t.pendingWrites[e.Key] = e
 	return nil
